@@ -573,9 +573,10 @@ class TFTPSubServer(UDPServer):
     should create an instance of this to handle all communication with the
     client after the initial ``RRQ`` packet.
     """
-    allow_reuse_address = True
-    # NOTE: allow_reuse_port is left False as the sub-server is restricted to
-    # ephemeral ports
+    # NOTE: allow_reuse_address and allow_reuse_port are left False: the
+    # sub-server binds an ephemeral port, and with SO_REUSEADDR set the kernel
+    # may hand the port of a live transfer to a new one, which then receives
+    # the other transfer's packets
     logger = TFTPBaseServer.logger
 
     def __init__(self, main_server, client_state):
